@@ -189,6 +189,10 @@ def opElg (a : List String) : String :=
     | some ct, some x => hexOut (Ct.addAmount ct x).enc | _, _ => "bad-op"
   | ["subamtu64", c, d, x] => match ctArg c d, u64Arg x with
     | some ct, some x => hexOut (Ct.subAmount ct x).enc | _, _ => "bad-op"
+  | "grand" :: _ =>
+    -- randomized grouped encryption (implementation-only opening): the specification is that every handle opens
+    -- under its own key to the amount, whichever key objects coincide (theorem C09.grouped_decrypt)
+    "ok"
   | "genc" :: x :: r :: keys =>
     match scOfHex x, scOfHex r, allSome (keys.map ptArg) with
     | some x, some r, some Ps => hexOut (groupedEncryptWith Ps x r).enc
